@@ -411,3 +411,60 @@ def rule_dedup_key(db: ProgramDB) -> List[Instance]:
                         f"operand's variables, so a left row that differs only on a variable the right operand constrains is "
                         f"suppressed as a duplicate and its join partners are lost"))
     return out
+
+
+def rule_dedup_parent(db: ProgramDB) -> List[Instance]:
+    """A node's duplicate-suppression key for a child always contains what the node's own parent requires from it: on
+    every path through every implementation of _required_variables_from_child_ on which the node has a parent, the
+    parent's requirements are merged in (directly or through super())."""
+    from ..abseval import AbsEval, State, TOP
+    from ..cfg import CFG
+    from .modes import _node_calls
+    out = []
+    se = db.cls("SymbolicExpression")
+    impls = []
+    for c in se.all_subclasses():
+        m = c.methods.get("_required_variables_from_child_")
+        if m is not None:
+            impls.append(m)
+    for m in sorted(impls, key=lambda f: f.qualname):
+        cfg = CFG(m)
+
+        def attr_hook(e, st, ev):
+            if isinstance(e, ast.Attribute) and isinstance(e.value, ast.Name) and e.value.id == "self":
+                if e.attr == "_parent_":
+                    return ("obj", "truthy")
+                if e.attr in ("left", "right", "_child_"):
+                    return ("obj", "#" + e.attr)
+            return None
+        ev = AbsEval(db, m, cfg, attr_hook=attr_hook)
+        child_param = m.positional_params[1] if len(m.positional_params) > 1 else None
+        is_binary = m.cls.is_subclass_of("BinaryOperator")
+        child_tokens = [("obj", "#left"), ("obj", "#right")] if is_binary else [("obj", "#_child_")]
+
+        def merges_parent(n) -> bool:
+            for c in _node_calls(n):
+                if call_attr(c) == "_required_variables_from_child_":
+                    r = c.func.value
+                    if isinstance(r, ast.Attribute) and r.attr == "_parent_":
+                        return True
+                    if isinstance(r, ast.Call) and isinstance(r.func, ast.Name) and r.func.id == "super":
+                        return True
+            return False
+        if not any(merges_parent(n) for n in cfg.nodes):
+            out.append(inst("DEDUP-PARENT", VIOLATION, m, f"{m.short}[parent requirements merged]",
+                            "the parent's requirements are never merged into the key"))
+            continue
+        p = None
+        for tok in child_tokens:
+            init = State({child_param: tok}) if child_param else State({})
+            p = ev.explore([(cfg.entry, init)], lambda n: n.kind in ("return", "exit"), blocked=merges_parent, kinds=("n",))
+            if p is not None:
+                break
+        ok = p is None
+        out.append(inst("DEDUP-PARENT", HOLDS if ok else VIOLATION, m, f"{m.short}[parent requirements merged]",
+                        "on every path the parent's requirements are merged into the key" if ok else
+                        "a path returns the key without what the parent requires from this node: rows that differ only in a "
+                        "variable an ancestor (e.g. the rule head / the selected variables) needs are suppressed as duplicates: "
+                        + " ".join(cfg.describe_path(p)[-3:])))
+    return out
